@@ -31,6 +31,10 @@ LEVEL = "exploration"
 RULE = (
     "cases = seeded point clouds (uniform / jittered / clustered / anisotropic, 1..300 points, scales 1e-2..1e6, offsets up to 1e3 "
     "extents; 1-D, 2-D non-square, Fortran-order, 0-d inputs; extra coordinates; lattices that produce exact distance ties). "
+    "Containers: ndarrays, and pandas Series / DataFrame columns (data and coordinates independently) whose index labels are not the "
+    "positions (after sort_values, sample(frac=1), reversal, a permuted 0..n-1 index, boolean-mask and iloc[::2] subsets, a string "
+    "index, an unrelated index on the data), 2-D DataFrame.values (Fortran order), 1-D xarray.DataArray data, Series queries; the same "
+    "for median_distance coordinates and distance_mask data / query coordinates. "
     "KNeighbors: k in {1,2,3,n-1,n,random}, reductions mean/median/min/max (+sum/ptp), data values unique per point, queries inside, "
     "outside and on the data, direct predict and nested through grid/scatter/profile/Chain/project_grid. median_distance: k=1..n-1. "
     "distance_mask: maxdist from the quantiles of the true nearest distances (also 0, huge, exactly a realised distance), array form "
@@ -50,6 +54,7 @@ ASSUMPTIONS = [
     "|nearest distance - maxdist| < 1e-9*maxdist + 16 eps*max|projected coordinate| is either-way, EXCEPT where the distance is exact for every correct implementation: integer-valued (projected) coordinates below 2**20 whose squared nearest distance is a perfect square, and a query coinciding with a data point without projection - there d <= maxdist is judged strictly",
     "which of two equidistant neighbours KNeighbors uses is not specified: tied queries stay either-way",
     "the projection callables are pure functions (the oracle calls them itself on copies of the raveled inputs)",
+    "containers are read positionally (np.asarray / np.ravel of each argument, as verde documents): element i of the data belongs to point i whatever the index labels say",
     "the fitted points/data are the arguments observed at KNeighbors.fit (C-order element sequence), predictions of estimators whose fit was not observed are skipped",
     "easting and northing of a request have equal shapes (broadcasting unequal shapes is not promised)",
 ]
@@ -75,6 +80,18 @@ FLOORS = {
         "grid_built:setitem_with_scalar_coordinate": 50, "class:grid_dataset_level_dims_easting_first": 200,
         "class:grid_dataset_level_dims_northing_first": 200, "class:grid_coords_declared_northing_first": 95,
         "class:grid_first_coordinate_is_not_a_dimension": 98, "class:grid_square_with_easting_first_dataset_dims": 30,
+        "class:knn_fit_data_container_Series": 165, "class:knn_fit_data_container_DataArray": 35,
+        "class:knn_fit_coordinates_container_Series": 180, "class:knn_fit_data_index_0..n-1_permuted": 80,
+        "class:knn_fit_data_index_integer_with_gaps": 35, "class:knn_fit_data_index_non_integer_labels": 12,
+        "class:knn_fit_coordinates_index_0..n-1_permuted": 85, "class:knn_fit_coordinates_index_integer_with_gaps": 40,
+        "class:knn_fit_2d_fortran_order": 100, "class:knn_query_container_Series": 270,
+        "class:median_coordinates_container_Series": 100, "class:median_coordinates_index_0..n-1_permuted": 70,
+        "class:mask_data_coordinates_container_Series": 95, "class:mask_data_coordinates_index_0..n-1_permuted": 65,
+        "class:mask_query_container_Series": 32, "pandas_fit:2d_DataFrame.values": 25,
+        "pandas_fit:data_series_with_unrelated_index": 33, "pandas_fit:data_series_coordinates_ndarray": 35,
+        "pandas_fit:coordinates_series_data_ndarray": 35, "pandas_frame:sort_values": 80, "pandas_frame:sample": 85,
+        "pandas_frame:reversed": 88, "pandas_frame:permuted_integer_index": 145, "pandas_frame:boolean_mask_subset": 50,
+        "pandas_frame:every_other_row": 60, "pandas_frame:string_index": 94,
     },
     "thorough": {
         "eval:KNeighbors.predict": 25500, "eval:median_distance": 5400, "eval:distance_mask.array": 7650,
@@ -97,6 +114,18 @@ FLOORS = {
         "grid_built:setitem_with_scalar_coordinate": 750, "class:grid_dataset_level_dims_easting_first": 3000,
         "class:grid_dataset_level_dims_northing_first": 3000, "class:grid_coords_declared_northing_first": 1425,
         "class:grid_first_coordinate_is_not_a_dimension": 1470, "class:grid_square_with_easting_first_dataset_dims": 450,
+        "class:knn_fit_data_container_Series": 2475, "class:knn_fit_data_container_DataArray": 525,
+        "class:knn_fit_coordinates_container_Series": 2700, "class:knn_fit_data_index_0..n-1_permuted": 1200,
+        "class:knn_fit_data_index_integer_with_gaps": 525, "class:knn_fit_data_index_non_integer_labels": 180,
+        "class:knn_fit_coordinates_index_0..n-1_permuted": 1275, "class:knn_fit_coordinates_index_integer_with_gaps": 600,
+        "class:knn_fit_2d_fortran_order": 1500, "class:knn_query_container_Series": 4050,
+        "class:median_coordinates_container_Series": 1500, "class:median_coordinates_index_0..n-1_permuted": 1050,
+        "class:mask_data_coordinates_container_Series": 1425, "class:mask_data_coordinates_index_0..n-1_permuted": 975,
+        "class:mask_query_container_Series": 480, "pandas_fit:2d_DataFrame.values": 375,
+        "pandas_fit:data_series_with_unrelated_index": 495, "pandas_fit:data_series_coordinates_ndarray": 525,
+        "pandas_fit:coordinates_series_data_ndarray": 525, "pandas_frame:sort_values": 1200, "pandas_frame:sample": 1275,
+        "pandas_frame:reversed": 1320, "pandas_frame:permuted_integer_index": 2175, "pandas_frame:boolean_mask_subset": 750,
+        "pandas_frame:every_other_row": 900, "pandas_frame:string_index": 1410,
     },
 }
 JOBS = {"quick": 1, "thorough": 8}
@@ -241,6 +270,30 @@ def nearest_squared_integer(qx, qy, px, py, chunk=200_000):
     return out, diagonal
 
 
+def container_class(obj):
+    """ndarray / Series / DataArray / scalar ... (what the caller handed over)."""
+    if isinstance(obj, np.ndarray):
+        return "ndarray"
+    name = type(obj).__name__
+    return name if name in ("Series", "DataArray", "DataFrame", "list", "tuple") else "scalar" if np.ndim(obj) == 0 else name
+
+
+def index_class(obj):
+    """For pandas objects: how far the index labels are from the positions 0..n-1 (labels must not matter)."""
+    index = getattr(obj, "index", None)
+    if index is None or not hasattr(obj, "iloc"):
+        return None
+    n = len(index)
+    labels = np.asarray(index)
+    if labels.dtype.kind not in "iu":
+        return "non_integer_labels"
+    if np.array_equal(labels, np.arange(n)):
+        return "0..n-1_in_order"
+    if np.array_equal(np.sort(labels), np.arange(n)):
+        return "0..n-1_permuted"
+    return "integer_with_gaps"
+
+
 def _maxabs(*arrays):
     mag = 0.0
     for arr in arrays:
@@ -310,6 +363,14 @@ def install(tap, run):
         fitted[est] = {"x": px.copy(), "y": py.copy(), "data": data, "n_coords": len(coords),
                        "weights": a.get("weights") is not None, "ndim": np.ndim(coords[0])}
         run.count("KNeighbors.fit_observed")
+        run.count("class:knn_fit_data_container_" + container_class(a["data"]))
+        run.count("class:knn_fit_coordinates_container_" + container_class(coords[0]))
+        for what, obj in (("data", a["data"]), ("coordinates", coords[0])):
+            kind = index_class(obj)
+            if kind:
+                run.count("class:knn_fit_%s_index_%s" % (what, kind))
+        if isinstance(coords[0], np.ndarray) and coords[0].ndim == 2 and coords[0].flags.f_contiguous and not coords[0].flags.c_contiguous:
+            run.count("class:knn_fit_2d_fortran_order")
         if a.get("weights") is not None:
             run.count("class:knn_fit_with_weights")
         if len(coords) > 2:
@@ -349,6 +410,8 @@ def install(tap, run):
         run.evaluated("KNeighbors.predict")
         run.count("class:knn_k=%s" % ("1" if k == 1 else "n" if k == n else "n-1" if k == n - 1 else "2..n-2"))
         run.count("class:knn_query_%dd" % q0.ndim)
+        if container_class(coords[0]) != "ndarray":
+            run.count("class:knn_query_container_" + container_class(coords[0]))
         if len(coords) > 2:
             run.count("class:knn_query_extra_coordinates")
         if ev.parent is not None:
@@ -440,6 +503,9 @@ def install(tap, run):
         run.evaluated("median_distance")
         run.count("class:median_k=%s" % ("1" if k == 1 else "n-1" if k == n - 1 else "2..n-2"))
         run.count("class:median_input_%dd" % c0.ndim)
+        if container_class(coords[0]) != "ndarray":
+            run.count("class:median_coordinates_container_" + container_class(coords[0]))
+            run.count("class:median_coordinates_index_%s" % index_class(coords[0]))
         if len(coords) > 2:
             run.count("class:median_extra_coordinates")
         witness = {"coordinates": [c0, c1], "k_nearest": k, "projection": repr(projection)}
@@ -523,6 +589,11 @@ def install(tap, run):
         if len(dc) > 2 or (coords is not None and len(coords) > 2):
             run.count("class:mask_extra_coordinates")
         run.count("class:mask_query_%dd" % q0.ndim)
+        if container_class(dc[0]) not in ("ndarray", "scalar"):
+            run.count("class:mask_data_coordinates_container_" + container_class(dc[0]))
+            run.count("class:mask_data_coordinates_index_%s" % index_class(dc[0]))
+        if coords is not None and container_class(coords[0]) != "ndarray":
+            run.count("class:mask_query_container_" + container_class(coords[0]))
         nearest = nearest_distance(pqx, pqy, pdx, pdy)
         margin = TIE_REL * abs(maxdist) + 16 * EPS * _maxabs(pdx, pdy, pqx, pqy) + np.finfo("float64").tiny
         must_true = nearest < maxdist - margin
@@ -723,6 +794,43 @@ def _present(rng, arrays, allow_0d=False):
     return tuple(np.ascontiguousarray(a) for a in arrays), "1d"
 
 
+PANDAS_OPS = ["sort_values", "sample", "reversed", "permuted_integer_index", "boolean_mask_subset", "every_other_row", "string_index",
+              "range_index"]
+
+
+def _frame(run, rng, columns, op=None, keep_all=False):
+    """
+    The columns as a pandas DataFrame the way user code leaves it: sorted, shuffled, reversed, subset ... so that the index
+    labels are NOT the positions. verde documents positional semantics (np.ravel of every argument): row i is point i.
+    """
+    import pandas as pd
+
+    columns = collections.OrderedDict(columns)
+    df = pd.DataFrame(columns)
+    n = len(df)
+    op = PANDAS_OPS[int(rng.integers(0, len(PANDAS_OPS)))] if op is None else op
+    if keep_all and op in ("boolean_mask_subset", "every_other_row"):
+        op = "permuted_integer_index"
+    if op == "sort_values":
+        df = df.sort_values(by=list(columns)[int(rng.integers(0, len(columns)))], ascending=bool(rng.random() < 0.5))
+    elif op == "sample":
+        df = df.sample(frac=1, random_state=int(rng.integers(0, 2 ** 31 - 1)))
+    elif op == "reversed":
+        df = df.iloc[::-1]
+    elif op == "permuted_integer_index":
+        df = df.set_axis(rng.permutation(n))
+    elif op == "boolean_mask_subset":
+        keep = rng.random(n) < 0.7
+        keep[int(rng.integers(0, n))] = True
+        df = df[keep]
+    elif op == "every_other_row":
+        df = df.iloc[int(rng.integers(0, 2)) if n > 1 else 0::2]
+    elif op == "string_index":
+        df = df.set_axis(["p%03d" % i for i in rng.permutation(n)])
+    run.count("pandas_frame:" + op)
+    return df, op
+
+
 def _n_points(rng, lo=1, hi=300):
     if rng.random() < 0.6:
         return int(min(max(int(rng.integers(2, 16)) * int(rng.integers(2, 21)), lo), hi))
@@ -767,6 +875,52 @@ def _k_choice(rng, n):
     return int(min(max(int(rng.choice(options)), 1), n))
 
 
+def _pandas_fit_inputs(run, rng, east, north, data, extras):
+    """
+    Fit arguments in pandas / xarray containers. Returns the arguments plus the element sequences they hold in positional
+    order (what the oracle and the queries are built from).
+    """
+    import pandas as pd
+    import xarray as xr
+
+    columns = [("easting", east), ("northing", north), ("data", data)] + [("extra%d" % i, x) for i, x in enumerate(extras)]
+    mode = int(rng.integers(0, 7))
+    if mode == 6 and _shape_2d(rng, east.size) is not None:
+        # 2-D inputs taken from DataFrame.values (pandas hands out Fortran-ordered blocks)
+        shp = _shape_2d(rng, east.size)
+        east_in, north_in, data_in = (pd.DataFrame(np.asarray(c, dtype="float64").reshape(shp)).values for c in (east, north, data))
+        run.count("pandas_fit:2d_DataFrame.values")
+        return east_in, north_in, data_in, [], None, east, north, np.asarray(data, dtype="float64")
+    df, op = _frame(run, rng, columns)
+    east, north, data = df.easting.to_numpy(), df.northing.to_numpy(), df.data.to_numpy()
+    extra_in = [df[name] if rng.random() < 0.5 else df[name].to_numpy() for name, _ in columns[3:]]
+    weights = None
+    if mode == 0:  # everything as columns of the one frame
+        east_in, north_in, data_in = df.easting, df.northing, df.data
+        weights = df.data * 0 + 1.0 if rng.random() < 0.3 else None
+        name = "all_series_of_one_frame"
+    elif mode == 1:  # only the data is a Series
+        east_in, north_in, data_in = east, north, df.data
+        name = "data_series_coordinates_ndarray"
+    elif mode == 2:  # only the coordinates are Series
+        east_in, north_in, data_in = df.easting, df.northing, data
+        name = "coordinates_series_data_ndarray"
+    elif mode == 3:  # data carries an index unrelated to the one of the coordinates
+        east_in, north_in = df.easting, df.northing
+        data_in = pd.Series(data, index=rng.permutation(data.size) + int(rng.choice([0, 0, 1000])), name="values")
+        name = "data_series_with_unrelated_index"
+    elif mode == 4:  # 1-D xarray.DataArray data
+        east_in, north_in = (east, north) if rng.random() < 0.5 else (df.easting, df.northing)
+        data_in = xr.DataArray(data, dims="points", coords={"points": rng.permutation(data.size)}, name="values")
+        name = "data_DataArray_1d"
+    else:  # columns picked by position from .iloc / a column subset frame
+        sub = df[["easting", "northing", "data"]]
+        east_in, north_in, data_in = sub.iloc[:, 0], sub.iloc[:, 1], sub.iloc[:, 2]
+        name = "iloc_columns"
+    run.count("pandas_fit:" + name)
+    return east_in, north_in, data_in, extra_in, weights, east, north, data
+
+
 def _knn_case(run, verde, rng):
     lattice = rng.random() < 0.2
     if lattice:
@@ -776,11 +930,16 @@ def _knn_case(run, verde, rng):
     n = east.size
     data = _unique_data(rng, n)
     extras = [rng.normal(size=n)] if rng.random() < 0.25 else []
-    (east_in, north_in, data_in, *extra_in), layout = _present(rng, [east, north, data] + extras)
+    weights_in = None
+    if rng.random() < 0.4:
+        east_in, north_in, data_in, extra_in, weights_in, east, north, data = _pandas_fit_inputs(run, rng, east, north, data, extras)
+        n = east.size
+    else:
+        (east_in, north_in, data_in, *extra_in), layout = _present(rng, [east, north, data] + extras)
     k = _k_choice(rng, n)
     reduction = REDUCTIONS[int(rng.integers(0, len(REDUCTIONS)))]
     est = verde.KNeighbors(k=k, reduction=reduction)
-    weights = np.ones_like(np.asarray(data_in), dtype="float64") if rng.random() < 0.15 else None
+    weights = weights_in if weights_in is not None else (np.ones_like(np.asarray(data_in), dtype="float64") if rng.random() < 0.15 else None)
     with warnings.catch_warnings():
         warnings.simplefilter("ignore")
         est.fit((east_in, north_in, *extra_in), data_in, weights=weights)
@@ -790,7 +949,11 @@ def _knn_case(run, verde, rng):
             qx = np.round(qx / (step / 2)) * (step / 2)
             qy = np.round(qy / (step / 2)) * (step / 2)
         qextra = [rng.normal(size=qx.size)] if rng.random() < 0.2 else []
-        query, qlayout = _present(rng, [qx, qy] + qextra, allow_0d=True)
+        if rng.random() < 0.2:
+            qdf, _ = _frame(run, rng, [("qx", qx), ("qy", qy)])
+            query = (qdf.qx, qdf.qy)
+        else:
+            query, qlayout = _present(rng, [qx, qy] + qextra, allow_0d=True)
         pred = est.predict(query)
     if rng.random() < 0.15:  # refit the same object on other data: the monitor must follow
         east2, north2 = gen.cloud(rng, max(n, 2))
@@ -842,7 +1005,11 @@ def _median_case(run, verde, rng):
         k = int(min(max(int(rng.choice([1, 1, 2, 3, 4, n - 1, int(rng.integers(1, n)), int(rng.integers(1, min(n, 25)))])), 1), n - 1))
         projection = _projection(rng, east, north)
         extras = [rng.normal(size=n)] if rng.random() < 0.25 else []
-        coords, layout = _present(rng, [east, north] + extras)
+        if rng.random() < 0.3:  # columns of a frame whose index labels are not the positions
+            df, _ = _frame(run, rng, [("easting", east), ("northing", north)] + [("extra", x) for x in extras], keep_all=True)
+            coords = tuple(df[c] for c in df.columns)
+        else:
+            coords, layout = _present(rng, [east, north] + extras)
         out = verde.median_distance(coords, k_nearest=k, projection=projection)
     run.sample("median", {"coordinates": list(coords[:2]), "k_nearest": k, "projection": repr(projection), "result": out})
 
@@ -870,7 +1037,11 @@ def _mask_case(run, verde, rng):
         form = int(rng.integers(0, 3))
         if form == 0:  # scattered queries
             qx, qy = _queries(rng, east, north)
-            query, qlayout = _present(rng, [qx, qy] + ([rng.normal(size=qx.size)] if rng.random() < 0.2 else []))
+            if rng.random() < 0.3:
+                qdf, _ = _frame(run, rng, [("qx", qx), ("qy", qy)], keep_all=True)
+                query = (qdf.qx, qdf.qy)
+            else:
+                query, qlayout = _present(rng, [qx, qy] + ([rng.normal(size=qx.size)] if rng.random() < 0.2 else []))
         else:  # a non-square mesh (possibly irregular and descending)
             ne, nn = int(rng.integers(2, 40)), int(rng.integers(2, 30))
             if ne == nn:
@@ -895,7 +1066,11 @@ def _mask_case(run, verde, rng):
         if n == 1 and rng.random() < 0.5:
             data_coords = (float(east[0]), float(north[0]))
         else:
-            data_coords, _ = _present(rng, [east, north] + ([rng.normal(size=n)] if rng.random() < 0.2 else []))
+            if rng.random() < 0.3:
+                ddf, _ = _frame(run, rng, [("easting", east), ("northing", north)], keep_all=True)
+                data_coords = (ddf.easting, ddf.northing)
+            else:
+                data_coords, _ = _present(rng, [east, north] + ([rng.normal(size=n)] if rng.random() < 0.2 else []))
         out = verde.distance_mask(data_coords, maxdist, coordinates=query, projection=projection)
     run.sample("mask", {"data_coordinates": list(data_coords[:2]), "maxdist": maxdist, "projection": repr(projection),
                         "query_shape": list(np.shape(query[0])), "mask": out})
